@@ -262,7 +262,24 @@ func c02Overlap(c *core.Ctx, r *core.Reporter) {
 			if !ok {
 				continue
 			}
-			for _, so := range core.Origins(ia.X) {
+			base := ia.X
+			for { // `names[i+1:]`: an element of a tail of the slice is an element of the slice
+				sl, ok := base.(*ssa.Slice)
+				if !ok {
+					break
+				}
+				base = sl.X
+			}
+			for _, so := range core.Origins(base) {
+				if sl, ok := so.(*ssa.Slice); ok {
+					for _, inner := range core.Origins(sl.X) {
+						if su, ok := inner.(*ssa.UnOp); ok {
+							if fa, ok := su.X.(*ssa.FieldAddr); ok && core.FieldOf(fa) != nil && core.N(core.FieldOf(fa)) == "fragmentNames" {
+								return fa.X
+							}
+						}
+					}
+				}
 				su, ok := so.(*ssa.UnOp)
 				if !ok {
 					continue
